@@ -1,8 +1,11 @@
 package main
 
 import (
+	"context"
 	"fmt"
 	"go/types"
+	"os"
+	"os/exec"
 	"sort"
 	"strings"
 	"sync"
@@ -113,6 +116,29 @@ func genFuncK(p *Program, w *World, fn *ssa.Function, con *Contract, excepts map
 		o := e.oblig(st0, "cover", "requires-sat", "false", "precondition satisfiable", "")
 		o.Cover = true
 	}
+	// package invariants: assumed at entry (not for the package initialiser, which establishes them)
+	var pkgInvs []*PkgInvariant
+	if fn.Pkg != nil {
+		pkgInvs = w.PkgInv[fn.Pkg.Pkg.Path()]
+	}
+	isInit := fn.Name() == "init" && fn.Signature.Recv() == nil
+	if isInit && fn.Pkg != nil {
+		// the initialiser is verified for its first (and only effective) run
+		if g, ok := fn.Pkg.Members["init$guard"].(*ssa.Global); ok {
+			ga := e.globalAddr(g)
+			cur := e.load(st0, e.addrOf(ga))
+			e.S.assume(not(cur.T))
+		}
+	}
+	if !isInit {
+		for _, iv := range pkgInvs {
+			ienv := *env
+			ienv.Imports = iv.Imports
+			ienv.Pkg = iv.Pkg
+			e.S.assume(e.elabClause(&ienv, iv.Clause))
+			e.Assumptions["package-invariant:"+shortPkg(iv.Pkg)+"."+iv.Clause.ID+" (proved for the package initialiser and for functions under contract; assumed preserved by all other code)"] = true
+		}
+	}
 	// discriminators of known findings, elaborated in the entry environment
 	for _, id := range sortedKeys(excepts) {
 		toks, lerr := lexSpec("known_findings.json:"+id, 1, excepts[id])
@@ -138,6 +164,18 @@ func genFuncK(p *Program, w *World, fn *ssa.Function, con *Contract, excepts map
 		env.Where = saved
 	}
 	rets, out := e.runFunc(fn, args, fvs, st0, "top")
+	if len(pkgInvs) > 0 && (con != nil || isInit) {
+		for ri, r := range e.topRets {
+			for _, iv := range pkgInvs {
+				ienv := *env
+				ienv.Imports = iv.Imports
+				ienv.Pkg = iv.Pkg
+				ienv.St = r.st
+				t := e.elabClause(&ienv, iv.Clause)
+				e.oblig(r.st, "post", fmt.Sprintf("pkginv.%s@ret%d", iv.Clause.ID, ri+1), t, iv.Clause.Src, fmt.Sprintf("%s:%d", shortFile(iv.Clause.File), iv.Clause.Line))
+			}
+		}
+	}
 	if con != nil {
 		// vacuity guard: some return is reachable
 		o := e.oblig(&State{Reach: "true"}, "cover", "return-reachable", not(out.Reach), "some return reachable", "")
@@ -232,6 +270,9 @@ func discharge(obls []*Obligation, opt dischargeOpts) {
 	sem := make(chan struct{}, opt.Workers)
 	for _, o := range obls {
 		o := o
+		if o.Result != "" {
+			continue // decided by the batch pass
+		}
 		if o.Goal == "true" && !o.Cover {
 			o.Result = "unsat"
 			o.Solver = "trivial"
@@ -250,6 +291,79 @@ func discharge(obls []*Obligation, opt dischargeOpts) {
 			}
 			r := solve(opt.OutDir, o.Name, body, opt.TimeoutS, opt.Seed, false, opt.CrossCheck && !o.Cover, nil)
 			o.Result, o.Solver, o.TimeS, o.Output = r.Result, r.Solver, r.TimeS, r.Output
+		}()
+	}
+	wg.Wait()
+}
+
+// batchDischarge: first pass — one incremental z3 session per function walks the function's script
+// and checks every obligation in place (push / assert negated goal / check-sat / pop). Whatever it
+// does not decide as expected is left for the per-obligation solver race.
+func batchDischarge(groups [][]*Obligation, opt dischargeOpts, perQueryMs int) {
+	var wg sync.WaitGroup
+	sem := make(chan struct{}, opt.Workers)
+	for gi, g := range groups {
+		if len(g) == 0 {
+			continue
+		}
+		g := g
+		gi := gi
+		wg.Add(1)
+		sem <- struct{}{}
+		go func() {
+			defer wg.Done()
+			defer func() { <-sem }()
+			var b strings.Builder
+			fmt.Fprintf(&b, "(set-option :timeout %d)\n", perQueryMs)
+			sc := g[0].Script
+			pos := 0
+			n := 0
+			var asked []*Obligation
+			for _, o := range g {
+				if o.Script != sc || o.Prefix < pos || len(o.Extra) > 0 {
+					continue
+				}
+				if o.Goal == "true" && !o.Cover {
+					continue
+				}
+				for ; pos < o.Prefix; pos++ {
+					b.WriteString(sc.lines[pos])
+					b.WriteByte('\n')
+				}
+				b.WriteString("(push 1)\n(assert (not " + o.Goal + "))\n(check-sat)\n(pop 1)\n")
+				asked = append(asked, o)
+				n++
+			}
+			if n == 0 {
+				return
+			}
+			os.MkdirAll(opt.OutDir, 0o755)
+			file := fmt.Sprintf("%s/batch_%d_%s.smt2", opt.OutDir, gi, sanitizeFile(g[0].Func))
+			os.WriteFile(file, []byte(b.String()), 0o644)
+			start := time.Now()
+			ctx, cancel := context.WithTimeout(context.Background(), time.Duration(30+n*perQueryMs/1000)*time.Second)
+			defer cancel()
+			cmd := exec.CommandContext(ctx, "z3-new", fmt.Sprintf("smt.random_seed=%d", opt.Seed), file)
+			out, _ := cmd.Output()
+			el := time.Since(start).Seconds()
+			answers := strings.Fields(string(out))
+			k := 0
+			for _, a := range answers {
+				if a != "sat" && a != "unsat" && a != "unknown" {
+					// an error message: stop trusting the alignment
+					break
+				}
+				if k >= len(asked) {
+					break
+				}
+				o := asked[k]
+				k++
+				if (a == "unsat" && !o.Cover) || (a == "sat" && o.Cover) {
+					o.Result = a
+					o.Solver = "z3-new(batch)"
+					o.TimeS = el / float64(n)
+				}
+			}
 		}()
 	}
 	wg.Wait()
